@@ -1,0 +1,54 @@
+// Copyright 2009 Intel Corporation
+// SPDX-License-Identifier: Apache-2.0
+
+#pragma once
+
+// Named scheduling points for runtime verification harnesses.
+//
+// RKCOMMON_VERIF_POINT(name, obj) marks a place where a thread can be pre-empted
+// anyway. Unless the library is compiled with -DRKCOMMON_VERIF the macro expands
+// to nothing. With it, the point calls a process-wide callback (if one has been
+// installed) that a test harness can use to log the event, to delay the thread or
+// to hold it there until a chosen event of another thread. The points never
+// change what the library computes.
+
+#ifdef RKCOMMON_VERIF
+
+#include <atomic>
+
+namespace rkcommon {
+  namespace verif {
+
+    using HookFcn = void (*)(const char *point, const void *object);
+
+    inline std::atomic<HookFcn> &hook()
+    {
+      static std::atomic<HookFcn> h{nullptr};
+      return h;
+    }
+
+    inline void point(const char *name, const void *object)
+    {
+      HookFcn f = hook().load(std::memory_order_acquire);
+      if (f)
+        f(name, object);
+    }
+
+    // fires the point when the enclosing scope is left, i.e. after the value of a
+    // 'return' expression in that scope has been computed
+    struct PointAtScopeExit
+    {
+      const char *name;
+      const void *object;
+      ~PointAtScopeExit()
+      {
+        point(name, object);
+      }
+    };
+
+  }  // namespace verif
+}  // namespace rkcommon
+
+#define RKCOMMON_VERIF_POINT(name, obj) ::rkcommon::verif::point((name), (obj))
+
+#endif
